@@ -259,3 +259,11 @@ def _run2(spec):
 
 CHECK.plan = _plan2
 CHECK.run_shard = _run2
+
+
+# repeated-stage histories (the branch stage / the whole pipeline a second time
+# on the same object): this property's oracle reads the result alone and holds
+# there on the unchanged tree (the reference-model and hierarchy oracles do
+# not: a structure that is restructured again is outside their domain)
+CHECK.repeat_histories = True
+CHECK.repeat_oracles = {"C15"}
